@@ -40,12 +40,19 @@ pub struct ExMutex<T: ?Sized>(std::sync::Mutex<T>);
 pub struct ExMutexGuard<'a, T: ?Sized + 'a>(std::sync::MutexGuard<'a, T>);
 /// oracle: whether the lock is poisoned (both outcomes are considered)
 pub uninterp spec fn mutex_poisoned<T: ?Sized>(l: &std::sync::Mutex<T>) -> bool;
+/// oracle: the value a mutex holds when it is locked / the value behind a guard when it is (first) dereferenced
+pub uninterp spec fn mutex_content<T: ?Sized>(l: &std::sync::Mutex<T>) -> &T;
+pub uninterp spec fn mguard_content<'a, T: ?Sized>(g: &std::sync::MutexGuard<'a, T>) -> &'a T;
 pub assume_specification<T: ?Sized>[ std::sync::Mutex::<T>::lock ](l: &std::sync::Mutex<T>) -> (r: std::sync::LockResult<std::sync::MutexGuard<'_, T>>)
-    ensures r is Ok <==> !mutex_poisoned(l);
+    ensures r is Ok <==> !mutex_poisoned(l), r is Ok ==> mguard_content(&r->Ok_0) == mutex_content(l) && mutex_after(l) == mguard_final(&r->Ok_0);
+/// prophecy-style oracles for a Mutex (as `lock_after` / `wguard_final` for the RwLock below; assumption A11)
+pub uninterp spec fn mutex_after<T: ?Sized>(l: &std::sync::Mutex<T>) -> &T;
+pub uninterp spec fn mguard_final<'a, T: ?Sized>(g: &std::sync::MutexGuard<'a, T>) -> &'a T;
 /// a new mutex is not poisoned
 pub assume_specification<T>[ std::sync::Mutex::<T>::new ](t: T) -> (r: std::sync::Mutex<T>)
     ensures !mutex_poisoned(&r);
-pub assume_specification<'a, 'b, T: ?Sized>[ <std::sync::MutexGuard<'a, T> as core::ops::DerefMut>::deref_mut ](g: &'b mut std::sync::MutexGuard<'a, T>) -> (r: &'b mut T);
+pub assume_specification<'a, 'b, T: ?Sized>[ <std::sync::MutexGuard<'a, T> as core::ops::DerefMut>::deref_mut ](g: &'b mut std::sync::MutexGuard<'a, T>) -> (r: &'b mut T)
+    ensures same_val::<T>(&*r, mguard_content(old(g))), same_val::<T>(&*final(r), mguard_final(old(g)));
 pub assume_specification<'a, 'b, T: ?Sized>[ <std::sync::MutexGuard<'a, T> as core::ops::Deref>::deref ](g: &'b std::sync::MutexGuard<'a, T>) -> (r: &'b T);
 
 // ---- "the write did happen" for RwLock (A11) ---------------------------------------------------------------
